@@ -95,4 +95,9 @@ Section Safety.
   Definition level_safety (l : level) : option T := volume_safety (lv_flag l) (lv_faces l) (lv_pos l).
   Definition find_safety (levels : list level) : option T :=
     fold_left (fun acc l => fmin_o acc (level_safety l)) levels None.
+
+  (** OrangeTrackView::find_safety(real_type max_step) - the overload Urban MSC
+      calls - forwards to find_safety(): "we can't eliminate anything by
+      checking only nearby surfaces" *)
+  Definition find_safety_max (levels : list level) (max_step : T) : option T := find_safety levels.
 End Safety.
